@@ -16,5 +16,6 @@ func loggingCtx(ctx context.Context, l *logrus.Logger) context.Context {
 type panicState struct {
 	panicMu     sync.Mutex
 	Panics      []string
+	PanicStacks []string
 	ProxyErrors []string
 }
